@@ -105,6 +105,16 @@ def inputs(ctx):
                 continue
             ins.append({"id": "g%d" % n, "chain": ch, "langs": s})
             n += 1
+    # captions whose text sits at two places (two text nodes with different layouts, adjacent or on two
+    # lines - what the DFXP reader makes of <p region=a>.. <span region=b>..</span></p>): one cue all along
+    placed_sets = [[[(1000000, 2000000, ["speaker one speaker two"]), (3000000, 4000000, ["next"])]],
+                   [[(1000000, 2000000, ["first line", "second line"]), (2000000, 3000000, ["one two three"]), (5000000, 6000000, ["end"])]]]
+    for ch in ctx._chains:
+        if "WebVTT" not in ch and "DFXP" not in ch:
+            continue
+        for s in placed_sets:
+            ins.append({"id": "pl%d" % n, "chain": ch, "langs": s, "placed": True})
+            n += 1
     for k in range(250 if ctx.quick else 12000):
         ln = rng.choice([1, 2, 2, 3, 3, 4, 5, 6])
         if rng.random() < 0.25:
@@ -143,9 +153,28 @@ def execute(inp):
     for li, cues in enumerate(inp["langs"]):
         d = build.simple_set([(s, e, lines) for s, e, lines in cues], lang=names[li])
         desc["langs"].append(d["langs"][0])
+    if inp.get("placed"):
+        lay_a = {"a": ["left", "top"]}
+        lay_b = {"o": [["10", "%"], ["80", "%"]], "e": [["80", "%"], ["10", "%"]]}
+        for lg in desc["langs"]:
+            for cap in lg["caps"]:
+                nodes = []
+                for nd in cap["nodes"]:
+                    if nd[0] == "t" and " " in nd[1] and not nodes:
+                        # the first line in two pieces, the cut after a blank
+                        cut = nd[1].index(" ", len(nd[1]) // 2 - 1) + 1 if " " in nd[1][len(nd[1]) // 2 - 1:] else nd[1].index(" ") + 1
+                        nodes += [["t", nd[1][:cut], lay_a], ["t", nd[1][cut:], lay_b]]
+                    elif nd[0] == "t":
+                        nodes.append(["t", nd[1], lay_b])
+                    else:
+                        nodes.append(nd)
+                cap["nodes"] = nodes
     cs = build.caption_set(desc)
+    # text placed at two positions has no line structure to keep (WebVTT writes one cue block per
+    # position): for these sets a caption's text is compared as one run of words
+    flat = (lambda lines: [" ".join(" ".join(lines).split())]) if inp.get("placed") else (lambda lines: lines)
     rec = {"k": "chain", "chain": inp["chain"],
-           "langs": [[{"s": limbs(s), "e": limbs(e), "lines": [[ord(c) for c in ln] for ln in lines]}
+           "langs": [[{"s": limbs(s), "e": limbs(e), "lines": [[ord(c) for c in ln] for ln in flat(lines)]}
                       for s, e, lines in cues] for cues in inp["langs"]],
            "hops": []}
     failed = False
@@ -156,7 +185,12 @@ def execute(inp):
         try:
             doc = WRITERS[f]().write(cs)
             cs = READERS[f]().read(doc)
-            rec["hops"].append({"ok": True, "langs": project(cs, names[:len(inp["langs"])])})
+            got = project(cs, names[:len(inp["langs"])])
+            if inp.get("placed"):
+                for lg in got:
+                    for c in lg:
+                        c["lines"] = [[ord(ch) for ch in ln] for ln in flat(["".join(chr(x) for x in ln) for ln in c["lines"]])]
+            rec["hops"].append({"ok": True, "langs": got})
         except Exception as e:
             failed = True
             rec["hops"].append({"ok": False, "langs": [], "err": type(e).__name__ + ": " + str(e)[:200]})
